@@ -25,7 +25,7 @@ PROPS = {
                              "exception-cancel:queued", "exception-cancel:bulk-inline", "cancel-from-other-thread", "free-workers"],
         "assumptions": _A,
         "runs": {
-            "quick": [{"config": "plain", "shards": 16, "args": {"n": 1280}}, {"config": "tsan", "shards": 16, "args": {"n": 320}}, {"config": "asan", "shards": 16, "args": {"n": 480}}],
+            "quick": [{"config": "plain", "shards": 16, "args": {"n": 960}}, {"config": "tsan", "shards": 16, "args": {"n": 192}}, {"config": "asan", "shards": 16, "args": {"n": 320}}],
             "thorough": [{"config": "plain", "shards": 16, "seeds": 5}, {"config": "tsan", "shards": 16, "args": {"n": 6000}}, {"config": "asan", "shards": 16, "args": {"n": 8000}}],
         },
     },
@@ -40,7 +40,7 @@ PROPS = {
                              "late-thrower-first", "captured-inline-throw", "multi-producer", "pool-recursive-caller", "tryWait", "multi-round"],
         "assumptions": _A,
         "runs": {
-            "quick": [{"config": "plain", "shards": 16, "args": {"n": 1280}}, {"config": "tsan", "shards": 16, "args": {"n": 320}}, {"config": "asan", "shards": 16, "args": {"n": 480}}],
+            "quick": [{"config": "plain", "shards": 16, "args": {"n": 960}}, {"config": "tsan", "shards": 16, "args": {"n": 192}}, {"config": "asan", "shards": 16, "args": {"n": 320}}],
             "thorough": [{"config": "plain", "shards": 16, "seeds": 5}, {"config": "tsan", "shards": 16, "args": {"n": 5000}}, {"config": "asan", "shards": 16, "args": {"n": 8000}}],
         },
     },
